@@ -624,7 +624,7 @@ def gen_arith() -> None:
     http = px.load("http.py")
     out = ("(* GENERATED by tools/c11.py from wsgi.py (_RangeWrapper) and http.py (parse_range_header) on every run - do not edit.\n"
            "   The statement structure of these functions is pinned by the translator; the conditions, offsets and slice\n"
-           "   bounds inside it are the definitions below. *)\nFrom Coq Require Import ZArith Bool.\nOpen Scope Z_scope.\n\n")
+           "   bounds inside it are the definitions below. *)\nFrom Coq Require Import ZArith NArith Bool List.\nImport ListNotations.\nOpen Scope Z_scope.\n\n")
     cls = px.find_class(wsgi, "_RangeWrapper")
     for m in ("__init__", "_next_chunk", "_first_iteration", "_next", "__next__"):
         want, roles = RW_SKEL[m]
@@ -649,6 +649,49 @@ def gen_arith() -> None:
     if "return environ.get('wsgi.file_wrapper', FileWrapper)(file, buffer_size)" not in {norm(n) for n in ast.walk(wf) if isinstance(n, ast.stmt)}:
         raise px.Unsupported("wrap_file: body changed")
     out += f"\n(* wsgi.wrap_file default buffer_size *)\nDefinition file_wrapper_buffer_size : N := {bsz[0]}%N.\n"
+    # ---- the headers around the status: 416's Content-Range, what get_wsgi_headers strips on 304 / 1xx / 204
+    exc = px.load("exceptions.py")
+    rns = px.find_class(exc, "RequestedRangeNotSatisfiable")
+    if px.const(px.find_assign(rns, "code")) != 416:
+        raise px.Unsupported("RequestedRangeNotSatisfiable.code")
+    init = find_method(rns, "__init__")
+    expect_params(init, ["self", "length", "units", "description", "response"], "RequestedRangeNotSatisfiable.__init__")
+    dflt = [px.const(d) for d in init.args.defaults]
+    if dflt[:1] != [None] or not isinstance(dflt[1], str):
+        raise px.Unsupported("RequestedRangeNotSatisfiable defaults")
+    want = ("headers = super().get_headers(environ, scope)\nif self.length is not None:\n"
+            "    headers.append(('Content-Range', f'{self.units} */{self.length}'))\nreturn headers")
+    if "\n".join(norm(x) for x in body_wo_doc(find_method(rns, "get_headers"))) != want:
+        raise px.Unsupported("RequestedRangeNotSatisfiable.get_headers changed")
+    out += ("\n(* exceptions.RequestedRangeNotSatisfiable: Content-Range is <units> */<length>, units default *)\n"
+            f"Definition unsatisfiable_units : list N := {px.coq_string_codes(dflt[1])}.\n")
+    eh = px.const(px.find_assign(http, "_entity_headers").args[0]) if isinstance(px.find_assign(http, "_entity_headers"), ast.Call) else None
+    if not (isinstance(eh, list) and all(isinstance(x, str) for x in eh)):
+        raise px.Unsupported("_entity_headers is not frozenset([...literals...])")
+    ref = px.find_def(http, "remove_entity_headers")
+    allowed = px.const(ref.args.defaults[0])
+    if not (isinstance(allowed, tuple) and all(isinstance(x, str) for x in allowed)):
+        raise px.Unsupported("remove_entity_headers default")
+    want = ("allowed = {x.lower() for x in allowed}\n"
+            "headers[:] = [(key, value) for key, value in headers if not is_entity_header(key) or key.lower() in allowed]")
+    if "\n".join(norm(x) for x in body_wo_doc(ref)) != want:
+        raise px.Unsupported("remove_entity_headers changed")
+    if "\n".join(norm(x) for x in body_wo_doc(px.find_def(http, "is_entity_header"))) != "return header.lower() in _entity_headers":
+        raise px.Unsupported("is_entity_header changed")
+    resp = px.load("wrappers/response.py")
+    gwh = find_method(px.find_class(resp, "Response"), "get_wsgi_headers")
+    want_strip = ("if 100 <= status < 200 or status == 204:\n    headers.remove('Content-Length')\n"
+                  "elif status == 304:\n    remove_entity_headers(headers)")
+    if want_strip not in {norm(n) for n in ast.walk(gwh) if isinstance(n, ast.If)}:
+        raise px.Unsupported("get_wsgi_headers: the header-stripping statement changed")
+    out += ("\n(* http._entity_headers, the default `allowed` of remove_entity_headers; Response.get_wsgi_headers strips the entity\n"
+            "   headers on 304 and Content-Length on 1xx / 204 (statement pinned) *)\n"
+            "Definition entity_headers : list (list N) := [" + "; ".join(px.coq_string_codes(x) for x in sorted(eh)) + "].\n"
+            "Definition entity_allowed : list (list N) := [" + "; ".join(px.coq_string_codes(x.lower()) for x in allowed) + "].\n")
+    # http.quote_etag: the rendering that C11_etag_unquote / C11_etag_list_grammar are about (render_tag)
+    want = ("if '\"' in etag:\n    raise ValueError('invalid etag')\netag = f'\"{etag}\"'\nif weak:\n    etag = f'W/{etag}'\nreturn etag")
+    if "\n".join(norm(x) for x in body_wo_doc(px.find_def(http, "quote_etag"))) != want:
+        raise px.Unsupported("quote_etag changed")
     # FileWrapper.__next__: blocks of buffer_size, never empty
     fw = px.find_class(wsgi, "FileWrapper")
     want = "data = self.file.read(self.buffer_size)\nif data:\n    return data\nraise StopIteration()"
@@ -1374,10 +1417,15 @@ def _run_impl(c: Case):
         else:
             r = build_response(c, env)
             _OPEN.append(r)
-            with_timeout(r.make_conditional, 5, env, accept_ranges=c.accept, complete_length=c.clen)
+            target = env
+            if len(c.data) % 4 == 1:
+                from werkzeug.wrappers import Request
+                target = Request(env)
+            with_timeout(r.make_conditional, 5, target, accept_ranges=c.accept, complete_length=c.clen)
     except RequestedRangeNotSatisfiable as e:
         hd = dict(e.get_headers())
-        return f"416 {'~' if e.length is None else e.length}", {"status": 416, "cr": hd.get("Content-Range")}
+        return (f"416 {'~' if e.length is None else e.length} cr={o(hd.get('Content-Range'))}",
+                {"status": 416, "cr": hd.get("Content-Range"), "length": e.length})
     except ImplTimeout:
         return "timeout", {"status": "timeout"}
     except Exception as e:  # noqa: BLE001
@@ -1394,14 +1442,18 @@ def _run_impl(c: Case):
     except Exception as e:  # noqa: BLE001
         return "exn-body:" + type(e).__name__, {"status": "exn-body:" + type(e).__name__}
     wh = {k.lower(): v for k, v in headers}
+    rh = {k.lower(): v for k, v in r.headers}
     line = (f"{r.status_code} cr={o(cr)} cl={o(cl)} ar={'~' if ar is None else 'S:' + cps(ar)} "
             f"body={'/'.join(hexs(x) for x in chunks)}")
     return line, {"status": r.status_code, "cr": cr, "cl": cl, "ar": ar, "chunks": chunks, "wsgi_status": status,
-                  "wsgi_cl": wh.get("content-length"), "wsgi_cr": wh.get("content-range")}
+                  "wsgi_cl": wh.get("content-length"), "wsgi_cr": wh.get("content-range"), "resp_headers": rh, "wsgi_headers": wh}
 
 
 # ---------------------------------------------------------------- impl-level oracles (the property, transcribed)
 _CR = re.compile(r"bytes (\d+)-(\d+)/(\d+)\Z")
+# RFC 2616 7.1 entity headers that a 304 must not carry (Expires and Content-Location may stay)
+ENTITY_304 = {"allow", "content-encoding", "content-language", "content-length", "content-md5", "content-range", "content-type",
+              "last-modified"}
 
 
 def tag_weak_match(sem, cur):
@@ -1422,6 +1474,31 @@ def oracle(chk: Check, c: Case, obs) -> None:
         chk.fail("raises:" + st, f"make_conditional / the response iterator raises ({st}) for body kind {c.kind}", inp)
         return
     cond_method = c.method in ("GET", "HEAD")
+    # ---- the headers around the status
+    if st == 416:
+        if c.clen == L and obs.get("cr") != f"bytes */{L}":
+            chk.fail("416-content-range", f"416 with Content-Range {obs.get('cr')!r}, expected 'bytes */{L}'", inp)
+    else:
+        rh, wh = obs["resp_headers"], obs["wsgi_headers"]
+        if c.via == "make_conditional":
+            if rh.get("etag") != c.etag or rh.get("last-modified") != c.lm:
+                chk.fail("headers:validator-lost", f"ETag / Last-Modified changed by make_conditional: {rh.get('etag')!r} "
+                                                   f"{rh.get('last-modified')!r}", inp)
+            if cond_method and "date" not in rh:
+                chk.fail("headers:date-missing", "make_conditional did not set Date", inp)
+            want_ar = None if st != 206 else ("bytes" if c.accept is True else str(c.accept))
+            if obs["ar"] != want_ar:
+                chk.fail("headers:accept-ranges", f"Accept-Ranges {obs['ar']!r} on status {st}, expected {want_ar!r}", inp)
+        if st == 304:
+            bad = sorted(set(wh) & ENTITY_304)
+            if bad:
+                chk.fail("headers:304-entity-header", f"304 sent with entity headers {bad}", inp)
+            if c.etag is not None and wh.get("etag") != c.etag:
+                chk.fail("headers:validator-lost", f"304 without the ETag {c.etag!r}", inp)
+        elif st not in (204,) and not (100 <= st < 200):
+            lost = sorted(k for k in rh if k not in wh)
+            if lost:
+                chk.fail("headers:stripped", f"status {st}: headers {lost} of the response are not sent", inp)
     # ---- the 206 clause: holds for whatever request produced the 206
     if st == 206:
         m = _CR.match(obs["cr"] or "")
@@ -1467,6 +1544,41 @@ def oracle(chk: Check, c: Case, obs) -> None:
         return
     mixing = c.if_range is not None and (c.inm is not None or c.im is not None
                                          or (isinstance(ifr, tuple) and ifr[0] == "etag" and cur is None and c.ims is not None))
+
+    def range_consistent():
+        """the answer is what evaluating the Range header alone gives (used to keep the known-finding keys specific)"""
+        if not sem_known:
+            return True
+        w = range_expect(c.range_sem, L)
+        if w is None:
+            return True
+        if w[0] == "416":
+            return st == 416
+        ok206 = st == 206 and (a, b) == (w[1], w[2])
+        return ok206 if w[0] == "206" else (ok206 or st == 416)
+
+    def known_processable():
+        """what the listed findings say _is_range_request_processable does when If-Range meets other validators:
+        None when the request is outside those findings"""
+        if not isinstance(ifr, tuple):
+            return None
+        if ifr[0] == "date":
+            since = ifr[1]
+        elif c.ims_sem == "garbage":
+            return None
+        else:
+            since = c.ims_sem
+        u0 = since is not None and c.lm_sem is not None and c.lm_sem <= since
+        if cur is None:
+            return u0
+        if ifr[0] == "etag":
+            return ifr[2] == cur                      # weakness flags dropped
+        if c.im is not None:
+            return None if c.im_sem is None else not tag_admits(c.im_sem, cur)
+        if c.inm is not None:
+            return None if c.inm_sem is None else tag_weak_match(c.inm_sem, cur)
+        return u0
+
     if applicable and ifr_ok and sem_known:
         want = range_expect(c.range_sem, L)
         dev = None
@@ -1477,7 +1589,9 @@ def oracle(chk: Check, c: Case, obs) -> None:
         elif st == 206 and (a, b) != (want[1], want[2]):
             dev = ("206-range-not-asked", f"Range {c.range!r} on {L} bytes answered {obs['cr']}")
         if dev:
-            if mixing:
+            # listed finding: the other validators made the code ignore the Range although If-Range matches - only when
+            # that is exactly what happened (range ignored, and the finding's own formula says so)
+            if mixing and known_processable() in (False, None) and st not in (206, 416):
                 chk.fail("if-range-overridden-by-other-validators", dev[1] + f" (If-Range {c.if_range!r} matches; the other "
                          "validators decided)", inp)
             else:
@@ -1486,9 +1600,10 @@ def oracle(chk: Check, c: Case, obs) -> None:
         if st in (206, 416):
             if ifr_ok is False and c.if_range is not None and applicable:
                 weak_involved = isinstance(ifr, tuple) and ifr[0] == "etag" and (ifr[1] or resp_weak) and ifr[2] == cur
-                if weak_involved:
+                consistent = range_consistent()
+                if weak_involved and consistent:
                     key = "if-range-weak-comparison"
-                elif mixing:
+                elif mixing and known_processable() in (True, None) and consistent:
                     key = "if-range-overridden-by-other-validators"
                 else:
                     key = "if-range-failed-but-range-served"
@@ -1524,14 +1639,22 @@ def oracle(chk: Check, c: Case, obs) -> None:
     if match and st != 304:
         if c.im is not None and not has_etag:
             return                               # If-Match only against responses that carry an ETag
-        if st == 206:
-            chk.fail("304-incomplete:range-served-before-preconditions",
-                     f"validators match but a satisfiable Range is answered 206 instead of 304", inp)
-        elif st == 416:
-            pass
+        if st in (206, 416):
+            # listed finding: the Range header is evaluated before the preconditions - only when the answer is what the
+            # Range header alone gives
+            if range_consistent() and (ifr_ok is not False):
+                chk.fail("304-incomplete:range-served-before-preconditions",
+                         f"validators match but the Range header is answered first ({st}) instead of 304", inp)
+            elif ifr_ok is not False:
+                chk.fail("304-incomplete:range-answered-wrongly", f"validators match, answered {st} {obs.get('cr')!r}", inp)
         elif c.im is not None and tag_admits(c.im_sem, cur):
-            chk.fail("304-incomplete:if-match-masks-if-modified-since",
-                     f"If-Match {c.im!r} admits and If-Modified-Since matches, answered {st} instead of 304", inp)
+            # listed finding: an admitted If-Match masks the dates - only when the answer is the untouched status
+            if st == c.status0:
+                chk.fail("304-incomplete:if-match-masks-if-modified-since",
+                         f"If-Match {c.im!r} admits and If-Modified-Since matches, answered {st} instead of 304", inp)
+            else:
+                chk.fail("304-incomplete:if-match-admitted-unexpected-status",
+                         f"If-Match {c.im!r} admits and If-Modified-Since matches, answered {st}", inp)
         elif c.im is not None:
             pass                                 # If-Match fails: 412 is the right answer
         else:
@@ -1820,8 +1943,21 @@ def run(chk: Check) -> None:
         rh = rng.choice([None, "bytes=0-1"])
         ifr = rng.choice([None, None, gen_date_header(rng, lm_us // 10 ** 6)[0], '"' + cur + '"', 'W/"' + cur + '"', "", "x"])
         ign = rng.random() < 0.5
+        how = rng.random()
         try:
-            res = "modified" if shttp.is_resource_modified(rh, ifr, ims, inm, im, etag_h, None, lm_arg, ign) else "unmodified"
+            if how < 0.15 and etag_h is not None:
+                # data= : the etag is generate_etag(data) (sha1, an input of the model)
+                blob = bytes(rng.randint(0, 255) for _ in range(rng.randint(0, 6)))
+                etag_h = whttp.generate_etag(blob)
+                mod = shttp.is_resource_modified(rh, ifr, ims, inm, im, None, blob, lm_arg, ign)
+            elif how < 0.45:
+                # through the WSGI-level function: environ keys -> keyword arguments
+                envd = {k: v for k, v in (("HTTP_RANGE", rh), ("HTTP_IF_RANGE", ifr), ("HTTP_IF_MODIFIED_SINCE", ims),
+                                          ("HTTP_IF_NONE_MATCH", inm), ("HTTP_IF_MATCH", im)) if v is not None}
+                mod = whttp.is_resource_modified(envd, etag_h, None, lm_arg, ign)
+            else:
+                mod = shttp.is_resource_modified(rh, ifr, ims, inm, im, etag_h, None, lm_arg, ign)
+            res = "modified" if mod else "unmodified"
         except Exception as ex:  # noqa: BLE001
             res = "exn:" + type(ex).__name__
         dates = []
@@ -1912,6 +2048,53 @@ def run(chk: Check) -> None:
         ln = rng.choice([0, 1, 2, rng.randint(0, L + 3), max(L - start, 0)])
         rw_case(kind, data, chunkings(rng, data), rng.randint(1, 9), start, ln)
     chk.count("_RangeWrapper(random)", n_w)
+    # set_etag / get_etag / quote_etag / unquote_etag keep the tag and the weak flag; freeze() adds the etag of the data
+    from werkzeug.wrappers import Response as _R2
+    from werkzeug.test import EnvironBuilder as _EB2
+    for i in range(300 if quick else 3000):
+        t = "".join(rng.choice("abcXYZ019-_.*/ W") for _ in range(rng.randint(0, 6)))
+        w = rng.random() < 0.4
+        rr = _R2(b"x")
+        rr.set_etag(t, weak=w)
+        hv = rr.headers["ETag"]
+        if rr.get_etag() != (t, w) and t == t.strip() and t:
+            chk.fail("etag-roundtrip", f"set_etag({t!r}, weak={w}) -> header {hv!r} -> get_etag() {rr.get_etag()!r}",
+                     {"tag": t, "weak": w})
+        u = whttp.unquote_etag(hv)
+        add(f"unq {cps(hv)}", f"{o(u[0])} {'~' if u[1] is None else str(u[1]).lower()}", "unq")
+        chk.case(("etag-rt", t, w))
+    for i in range(100 if quick else 1000):
+        L = rng.randint(0, 12)
+        data = bytes(rng.randint(0, 255) for _ in range(L))
+        rr = _R2(chunkings(rng, data))
+        rr.freeze()
+        want_tag = whttp.quote_etag(whttp.generate_etag(data))
+        if rr.headers.get("ETag") != want_tag or rr.headers.get("Content-Length") != str(L):
+            chk.fail("freeze", f"freeze(): ETag {rr.headers.get('ETag')!r} Content-Length {rr.headers.get('Content-Length')!r}",
+                     {"data": data.hex()})
+        e2 = _EB2(headers=[("If-None-Match", want_tag)]).get_environ()
+        rr.make_conditional(e2)
+        if rr.status_code != 304:
+            chk.fail("304-incomplete", f"frozen response, If-None-Match with its own etag answered {rr.status_code}",
+                     {"data": data.hex()})
+        chk.case(("freeze", data))
+    # get_wsgi_headers: which header survives which status
+    from werkzeug.wrappers import Response as _Resp
+    from werkzeug.test import EnvironBuilder as _EB
+    env0 = _EB().get_environ()
+    names = ["Allow", "Content-Encoding", "content-language", "Content-Length", "CONTENT-LOCATION", "Content-MD5", "Content-Range",
+             "Content-Type", "Expires", "Last-Modified", "ETag", "Date", "Vary", "Cache-Control", "Accept-Ranges", "X-Foo",
+             "Content-Disposition", "content-lengthx", "Last-modified"]
+    for stt in (100, 101, 199, 200, 201, 204, 206, 304, 404, 412, 416):
+        for nm in names:
+            rr = _Resp([], status=stt)
+            rr.headers.clear()
+            rr.headers[nm] = "1"
+            got = any(k.lower() == nm.lower() for k, _ in rr.get_wsgi_headers(env0))
+            if nm.lower() == "content-length" and stt not in (204, 304) and not 100 <= stt < 200:
+                got = True
+            add(f"wk {stt} {cps(nm)}", "1" if got else "0", "wk")
+            chk.case(("wk", stt, nm))
     # _plain_int / str(int)
     for t in ["0", "-0", "007", " 12 ", "-12", "+1", "1_0", "١", "", "-", "--1", "1-", " 5 ", "12a", "\x1f3"] + \
             ["".join(rng.choice("0123456789-+_ \t٣x") for _ in range(rng.randint(0, 6))) for _ in range(1500)]:
@@ -2020,6 +2203,15 @@ def run_send_file(chk: Check, add) -> None:
                     if isinstance(c.if_range_sem, tuple) and c.if_range_sem[0] == "etag" and rng.random() < 0.6:
                         c.if_range, c.if_range_sem = c.etag, ("etag", False, c.etag[1:-1])
             c.lm_sem = None if c.lm is None else micros(whttp.parse_date(c.lm)) // 10 ** 6
+            if i % 9 == 4:
+                # conditional=False: the request's Range / validators are not looked at
+                rv = send_file_call(c, build_environ(c), conditional=False)
+                body = b"".join(rv.response)
+                if rv.status_code != 200 or body != c.data or "Content-Range" in rv.headers or rv.headers.get("Content-Length") != str(L):
+                    chk.fail("send_file-unconditional", f"send_file(conditional=False) answered {rv.status_code} "
+                             f"{rv.headers.get('Content-Range')!r}", c.to_input())
+                rv.close()
+                chk.count("send_file:conditional=False")
             res, obs = run_impl(c)
             before = len(chk.failures)
             oracle(chk, c, obs)
